@@ -160,6 +160,32 @@ def split_runs(path, shards, wd, tag):
     return out
 
 
+def tlc_trace_sharded(module, cfg, trace_path, shards=8, min_lines=60000, timeout=3000):
+    """tlc_trace on a large trace: split at reset records into `shards` files validated side by side; indices in the
+    result are those of the whole file."""
+    with open(trace_path) as f:
+        n = sum(1 for _ in f)
+    if n < min_lines or shards <= 1:
+        return tlc_trace(module, cfg, trace_path, timeout=timeout)
+    from concurrent.futures import ThreadPoolExecutor
+    wd = workdir("shards-" + str(os.getpid()) + "-" + str(time.time_ns()))
+    parts = split_runs(trace_path, shards, wd, "part")
+    try:
+        with ThreadPoolExecutor(max_workers=shards) as pool:
+            results = list(pool.map(lambda sh: (sh[1], tlc_trace(module, cfg, sh[0], timeout=timeout)), parts))
+    finally:
+        shutil.rmtree(wd, ignore_errors=True)
+    out = dict(consumed=True, consumed_upto=None, violations=[], drifts=[], states=1, raw="")
+    for off, r in results:
+        if not r["consumed"]:
+            out["consumed"] = False
+            out["consumed_upto"] = (r["consumed_upto"] or 0) + off
+        out["violations"] += [(i + off, p, w) for (i, p, w) in r["violations"]]
+        out["drifts"] += [(i + off, w) for (i, w) in r["drifts"]]
+        out["states"] += r["states"] - 1
+    return out
+
+
 def tlc_behaviours(module, cfg, out_path, workers=8, timeout=1800, simulate=None, seed=1, heap="8g"):
     """Runs TLC on a configuration whose invariant prints <<"REPLAY", json>> lines (exhaustively, or with
     simulate=(num, depth) by random simulation) and returns the printed behaviours (JSON text of action
